@@ -21,7 +21,7 @@ structure ARow (V : Type) where
   deleted : Bool     -- Row.Deleted
   dut : Int          -- DeleteUpdateTime: time of the INSERT or DELETE that set `deleted`
   cols : AList String (ACol V)
-deriving Repr
+deriving DecidableEq, Repr
 
 variable {V : Type}
 
